@@ -341,6 +341,8 @@ class ExprMixin:
             yield st1, self.mk_tuple(vs)
 
     def mk_tuple(self, vs):
+        if not vs:
+            return V(T.PY, ())
         if any(v.ty in (T.PY, T.FUN, EXC) for v in vs):
             if all(v.ty is T.PY for v in vs):
                 return V(T.PY, tuple(v.z for v in vs))
